@@ -72,6 +72,11 @@ CHECKS = {
     technique="SMT translation validation: block expressions returned by the real remove_tensor are re-contracted with the canonical tensor blocks (documented normalisation) and compared with the input by z3; the symmetry of each block expression is checked by z3; derivative blocks contracted with a free variation tensor are compared by z3 with the first-order coefficient of expr(T + eps dT)",
     text="Generated expressions (Einstein-unambiguous) with removable tensors of ranks 1|1, 2|2, 2|1, non-symmetric rank 2/3, bra-ket 0/+1/-1 and ADC amplitude vectors, incl. target-carrying and repeated indices on the removed tensor; derivative with 1-2 occurrences and exponent 2.",
     note="remove_tensor: one occurrence per term (normalisation for several occurrences is undocumented: outside); derivative: all tensor indices contracted (with target indices on the tensor the block result carries no deltas: outside). Normalisation c/|G| fixed from the docstrings."),
+ "C13": dict(
+    level=TV, design="2/C13", engine="tvsmt",
+    technique="SMT translation validation of the orbital-energy fraction algebra: input and actual output of each real operation encoded over symbolic orbital energies and tensor entries; two-stage decision (free inverse-bracket unknowns, then denominators cleared per outer monomial) by z3",
+    text="split/rebuild, canonicalize_sign, permute_num, cancel_orb_energy_frac, factor_eri_parts, factor_denom, symbolic<->explicit denominators (both directions), diagonalize_fock (diagonal Fock model), block_diagonalize_fock (block-diagonal model) on generated terms with 1-3 brackets (powers <=2) and rational numerators.",
+    note="Models <=2o2v; brackets of >=2 energies; documented refusals give no verdict. Stage 2 assumes non-vanishing brackets."),
 }
 NA_REASON = "check not built yet in this round (planned, see DESIGN.md section 2)"
 
